@@ -2212,13 +2212,35 @@ fn perturb_kernels(cx: &mut Cx, p: &mut Prng, pools: &Pools) {
 			);
 		}
 	}
-	// ---- informational: NRD kernels with the feature flag off are not carried
+	// ---- with the NRD feature flag off (the default on every network today) feature tag 3 is not a defined tag:
+	// refused under every protocol version alike, as a bare feature set, as a kernel and inside a transaction
 	global::set_local_nrd_enabled(false);
-	for v in VERSIONS {
-		let b = ref_kernel(&nrd, v);
-		match dec_bin::<TxKernel>(&b, v) {
-			Dec::Err(_) => cx.bump("not_carried.nrd_flag_disabled"),
-			_ => cx.bump("info.nrd_decoded_with_flag_disabled"),
+	for rel in [1u16, 5, 1440, 10080] {
+		let k3 = TxKernel {
+			features: KernelFeatures::NoRecentDuplicate {
+				fee,
+				relative_height: NRDRelativeHeight::new(rel as u64).unwrap(),
+			},
+			excess: pools.commits[(rel as usize) % pools.commits.len()],
+			excess_sig: gen_sig(p),
+		};
+		for v in VERSIONS {
+			let b = ref_kernel(&k3, v);
+			match dec_bin::<TxKernel>(&b, v) {
+				Dec::Err(_) => cx.bump("not_carried.nrd_flag_disabled"),
+				_ => cx.bump("info.nrd_decoded_with_flag_disabled"),
+			}
+			let sub = format!("rel{}", rel);
+			must_reject::<TxKernel>(cx, "TxKernel", &format!("nrd_tag_with_the_feature_flag_off_{}", kclass(v)), &sub, v, &b, Mode::Strict);
+			let flen = if v <= 1 { 17 } else { 11 };
+			must_reject::<KernelFeatures>(cx, "KernelFeatures", &format!("nrd_tag_with_the_feature_flag_off_{}", kclass(v)), &sub, v, &b[..flen], Mode::Strict);
+			// a transaction body whose only kernel carries the tag: offset, counts (0 inputs, 0 outputs, 1 kernel), kernel
+			let mut tb = vec![0u8; 32];
+			tb.extend_from_slice(&0u64.to_be_bytes());
+			tb.extend_from_slice(&0u64.to_be_bytes());
+			tb.extend_from_slice(&1u64.to_be_bytes());
+			tb.extend_from_slice(&b);
+			must_reject::<Transaction>(cx, "Transaction", &format!("nrd_tag_with_the_feature_flag_off_{}", kclass(v)), &sub, v, &tb, Mode::Strict);
 		}
 	}
 	global::set_local_nrd_enabled(true);
